@@ -56,7 +56,7 @@ def _extract_from_node(node: ast.stmt) -> list[ConstantInfo]:
 
 def _extract_from_assign(node: ast.Assign) -> list[ConstantInfo]:
     """Extract constants from a simple assignment."""
-    return [info for t in node.targets if (info := _to_const_info(t, node.value, node.lineno))]
+    return [info for t in node.targets if (info := _to_const_info(t, node.value, t.lineno))]
 
 
 def _extract_from_ann_assign(node: ast.AnnAssign) -> list[ConstantInfo]:
